@@ -602,12 +602,20 @@ def run_case(case) -> dict:
 
 
 def shards(tier):
-    return [(f"r{i:02d}", {"i": i}) for i in range(16)]
+    out = [(f"r{i:02d}", {"i": i}) for i in range(16)]
+    if tier == "thorough":
+        out += [(f"ath{i}", {"part": "atheris", "seconds": 600}) for i in range(8)]
+    return out
 
 
 def run_shard(ctx, spec):
     from gens.jose import setup_joserfc
     setup_joserfc()
+    if spec.get("part") == "atheris":
+        import sys as _sys
+        from harness.ath import run_atheris
+        run_atheris(ctx, "C16", spec["seconds"], _sys.modules[__name__])
+        return
     fixed_keys()
     valid_tokens()
     valid_json_tokens()
